@@ -300,10 +300,10 @@ Outcome run_case(const Case &c) {
 rc::Gen<int> rng(int lo, int hi) { return rc::gen::resize(100, rc::gen::inRange(lo, hi)); }
 rc::Gen<Case> genCase(bool tsan, bool thorough) {
   using namespace rc;
-  int scale = (tsan ? 1 : 8) * (thorough ? 4 : 1);
+  int scale = (tsan ? 1 : 8) * (thorough ? 2 : 1); // thorough: more cases (driver), twice the rounds, more threads in the uninstrumented builds
   vector<string> kinds;
   { std::stringstream ss(vl::env("VERIF_KINDS", "lockrec,lockrec,trylockrec,ticket,ticket,countdown,casloop,mix,mp,sb")); string k; while (std::getline(ss, k, ',')) if (!k.empty()) kinds.push_back(k); }
-  return gen::map(gen::tuple(gen::elementOf(kinds), rng(2, thorough ? 13 : 9), rng(200, 2000), gen::element('m', 's'), rng(0, 1000000), gen::element('i', 'i', 'p')),
+  return gen::map(gen::tuple(gen::elementOf(kinds), rng(2, (thorough && !tsan) ? 13 : 9), rng(200, 2000), gen::element('m', 's'), rng(0, 1000000), gen::element('i', 'i', 'p')),
                   [scale, tsan](const std::tuple<string, int, int, char, int, char> &t) {
                     Case c; c.kind = std::get<0>(t); c.T = std::get<1>(t); c.N = std::get<2>(t) * scale; c.lock = std::get<3>(t); c.noise = (unsigned)std::get<4>(t); c.width = std::get<5>(t);
                     if (c.kind == "mp") c.N = std::min(c.N, 3000);
@@ -312,6 +312,8 @@ rc::Gen<Case> genCase(bool tsan, bool thorough) {
                     if (c.kind == "bbuf") { c.N = std::min(c.N, tsan ? 120 : 3000); if (c.T % 2) c.T++; c.T = std::min(c.T, tsan ? 6 : 12); }
                     if (c.kind == "thr") { c.T = std::min(c.T, 8); c.N = std::min(c.N, 2000); }
                     if (c.kind == "trylockrec") c.N = std::min(c.N, 3000);
+                    // a spinlock with more spinning threads than free cores degenerates into whole time slices burnt per hand-over
+                    if ((c.kind == "lockrec" || c.kind == "trylockrec") && c.lock == 's') c.T = std::min(c.T, tsan ? 4 : 8);
                     return c; });
 }
 
